@@ -10,6 +10,18 @@ import (
 	"verif.local/simrt"
 )
 
+// varIDByName maps "pkgpath.var" to the instrumenter's variable id (the key of the access log).
+var varIDByName = map[string]int{}
+
+func loadVarIDs(inv *Inventory) {
+	if inv == nil {
+		return
+	}
+	for _, v := range inv.Vars {
+		varIDByName[v.Name] = v.ID
+	}
+}
+
 type C19Task struct {
 	Calls     []*Call `json:"calls"`
 	OrderSeed uint64  `json:"map_order_seed"` // 0 = canonical map order for this task
@@ -99,6 +111,7 @@ func runTasks(tasks []C19Task, s *simrt.Sched, only int) *c19Run {
 		simTasks = append(simTasks, st)
 	}
 	// monitors, evaluated at every scheduler step
+	stepClock := map[int]uint32{}
 	lastG := simrt.GlobalHashes()
 	lastA := simrt.DeepHash(allArgs)
 	monitor = func(ran *simrt.Task, reason string) {
@@ -108,6 +121,15 @@ func runTasks(tasks []C19Task, s *simrt.Sched, only int) *c19Run {
 		g := simrt.GlobalHashes()
 		for i := range g {
 			if i < len(lastG) && g[i] != lastG[i] {
+				// feed the change into the vector-clock monitor as a write at the earliest moment
+				// it can have happened (start of this step)
+				if vid, ok := varIDByName[simrt.Globals[i].Name]; ok {
+					c := stepClock[ran.ID]
+					if c == 0 {
+						c = 1
+					}
+					s.SyntheticWrite(ran, vid, c, ran.LastSite())
+				}
 				if ran.SyncOps-syncAtCall[ran.ID] == 0 && ran.SyncOps == syncAtCall[ran.ID] {
 					if _, dup := run.findings["package-state-modified-without-synchronisation"]; !dup {
 						run.findings["package-state-modified-without-synchronisation"] = fmt.Sprintf("package-level variable %s changed while task %d executed call %d (%s) and the task performed no synchronisation operation in that call",
@@ -119,6 +141,7 @@ func runTasks(tasks []C19Task, s *simrt.Sched, only int) *c19Run {
 			}
 		}
 		lastG = g
+		stepClock[ran.ID] = ran.Clock()
 		if a := simrt.DeepHash(allArgs); a != lastA {
 			if _, dup := run.findings["shared-argument-modified"]; !dup {
 				run.findings["shared-argument-modified"] = fmt.Sprintf("an argument object changed while task %d executed call %d (%s)", ran.ID, ran.CallIdx, callName(tasks, ran.CallIdx))
@@ -387,6 +410,18 @@ func (w *Worker) runC19Case(idx int64) {
 				s.PreemptAt[simrt.PKey{Task: t, Class: 1, Idx: rs.Intn(a)}] = true
 			} else if y > 0 {
 				s.PreemptAt[simrt.PKey{Task: t, Class: 0, Idx: rs.Intn(y)}] = true
+			}
+		}
+		// when the library starts goroutines of its own, also preempt at global positions: the
+		// running task may then be one of those goroutines
+		goCalls, total := 0, 0
+		for _, so := range solo {
+			goCalls += so.sched.GoCalls
+			total += so.sched.YieldN
+		}
+		if goCalls > 0 && total > 0 {
+			for b := 0; b < 2+budget; b++ {
+				s.PreemptGlobal[rs.Intn(total)] = true
 			}
 		}
 		return s
